@@ -2421,6 +2421,8 @@ class Discrimination(Output):
             edges = self.quantiles
         else:
             edges = np.linspace(0, 1, self._num_bins + 1)
+        if len(edges) < 2:
+            verif.util.error("Discrimination diagram needs at least two bin edges (-q)")
         num_bins = len(edges) - 1
 
         var = verif.field.Threshold(threshold)
